@@ -498,6 +498,7 @@ func isBalanced(currentAssignment map[string][]topicPartitionAssignment, allSubs
 func (s *stickyBalanceStrategy) performReassignments(reassignablePartitions []topicPartitionAssignment, currentAssignment map[string][]topicPartitionAssignment, prevAssignment map[topicPartitionAssignment]consumerGenerationPair, sortedCurrentSubscriptions []string, consumer2AllPotentialPartitions map[string][]topicPartitionAssignment, partition2AllPotentialConsumers map[topicPartitionAssignment][]string, currentPartitionConsumer map[topicPartitionAssignment]string) bool {
 	reassignmentPerformed := false
 	modified := false
+	seenAssignments := make(map[string]struct{})
 
 	// repeat reassignment until no partition can be moved to improve the balance
 	for {
@@ -543,6 +544,16 @@ func (s *stickyBalanceStrategy) performReassignments(reassignablePartitions []to
 		if !modified {
 			return reassignmentPerformed
 		}
+		// a pass that ends in an assignment an earlier pass ended in would repeat itself forever
+		var state strings.Builder
+		for _, partition := range reassignablePartitions {
+			state.WriteString(currentPartitionConsumer[partition])
+			state.WriteByte(0)
+		}
+		if _, exists := seenAssignments[state.String()]; exists {
+			return reassignmentPerformed
+		}
+		seenAssignments[state.String()] = struct{}{}
 	}
 }
 
